@@ -137,6 +137,15 @@ Theorem C01_modelled_simplifier_steps_sound : forall e e', wf e = true -> steps 
 Proof. intros e e' W H. destruct (steps_sound e e' W H) as [W' [S D]]. auto. Qed.
 Print Assumptions C01_modelled_simplifier_steps_sound.
 
+(* Non-vacuity of the step relation: ((a + 5) - 5) --merge constants--> (a - 0) --neutral constant--> a *)
+Example C01_steps_example :
+  let a := EReg 0 8 false in
+  steps (EOp Sub (EOp Add a (ECst 5 8 false) 8 false) (ECst 5 8 false) 8 false) a.
+Proof.
+  cbv zeta. eapply steps_cons; [eapply (st_rule r2_merge_consts); [cbn; tauto|reflexivity]|].
+  eapply steps_cons; [eapply (st_rule r2_zero_id); [cbn; tauto|reflexivity]|]. apply steps_refl.
+Qed.
+
 (* Non-vacuity of the rule theorems: each rule fires on a concrete well-sized node *)
 Example C01_rules_fire :
   let a := EReg 0 8 false in let b := EReg 1 8 false in let k c := ECst c 8 false in
